@@ -15,6 +15,9 @@
      R  registration / removal of some other session: p.mu.Lock .. Unlock.
      H  the heartbeat check: p.mu.RLock .. RUnlock (snapshot), session.mu.Lock; Send; Unlock; on a failed send
         p.mu.Lock .. Unlock (removal).
+     A  the Acknowledge handler: updateSessionAck (p.mu.Lock; session.mu.Lock; Unlock; Unlock), then
+        maybeManageWALRetention: p.mu.RLock .. RUnlock (minimum over the sessions), then WAL.ManageRetention, which takes
+        the WAL lock.  RetentionHoldsRead = TRUE is the seeded variant in which the read lock is still held there.
    The session's stream may break at any moment (`broken`); sends on it then fail (they never block here: blocking
    sends are the open finding KF_C15_stalled_reader_blocks_primary and are not the subject of this module).
 
@@ -28,7 +31,8 @@ EXTENDS Naturals, FiniteSets
 CONSTANTS OldOrder,        \* catch-up reads the WAL under p.mu.RLock (before fix 11)
           SyncNotify,      \* the WAL also notifies OnWALSync (p.mu.Lock) inside Append (SyncImmediate)
           UnregUnderRead,  \* seeded: W unregisters after a failed push under its own read lock
-          HbLeak           \* seeded: H leaks session.mu after a failed heartbeat send
+          HbLeak,          \* seeded: H leaks session.mu after a failed heartbeat send
+          RetentionHoldsRead  \* seeded: A still holds p.mu for reading while WAL.ManageRetention takes the WAL lock
 
 VARIABLES pc,       \* program counter per goroutine
           wal,      \* holder of the WAL lock ("" = free)
@@ -39,7 +43,7 @@ VARIABLES pc,       \* program counter per goroutine
           broken    \* the session's stream is broken
 
 vars == <<pc, wal, smu, readers, writer, pending, broken>>
-G == {"W", "C", "R", "H"}
+G == {"W", "C", "R", "H", "A"}
 
 Init == pc = [g \in G |-> "idle"] /\ wal = "" /\ smu = "" /\ readers = {} /\ writer = "" /\ pending = {} /\ broken = FALSE
 
@@ -100,10 +104,23 @@ H5 == pc["H"] = "remove" /\ CanLock("H") /\ writer' = "H" /\ pending' = pending 
 H6 == pc["H"] = "removed" /\ writer' = "" /\ Goto("H", "idle") /\ UNCHANGED <<wal, smu, readers, pending, broken>>
 HNext == H1 \/ H2 \/ H3 \/ H4 \/ H5 \/ H6
 
+(* A: Acknowledge handler with retention *)
+A1 == pc["A"] = "idle" /\ pending' = pending \cup {"A"} /\ Goto("A", "acklock") /\ UNCHANGED <<wal, smu, readers, writer, broken>>
+A2 == pc["A"] = "acklock" /\ CanLock("A") /\ writer' = "A" /\ pending' = pending \ {"A"} /\ Goto("A", "slock") /\ UNCHANGED <<wal, smu, readers, broken>>
+A3 == pc["A"] = "slock" /\ Acq(smu, "A") /\ smu' = "A" /\ Goto("A", "ackdone") /\ UNCHANGED <<wal, readers, writer, pending, broken>>
+A4 == pc["A"] = "ackdone" /\ smu' = "" /\ writer' = "" /\ Goto("A", "min") /\ UNCHANGED <<wal, readers, pending, broken>>
+A5 == pc["A"] = "min" /\ CanRLock /\ readers' = readers \cup {"A"} /\ Goto("A", "mindone") /\ UNCHANGED <<wal, smu, writer, pending, broken>>
+A6 == /\ pc["A"] = "mindone" /\ Goto("A", "retain")
+      /\ readers' = IF RetentionHoldsRead THEN readers ELSE readers \ {"A"}
+      /\ UNCHANGED <<wal, smu, writer, pending, broken>>
+A7 == pc["A"] = "retain" /\ Acq(wal, "A") /\ wal' = "A" /\ Goto("A", "retained") /\ UNCHANGED <<smu, readers, writer, pending, broken>>
+A8 == pc["A"] = "retained" /\ wal' = "" /\ readers' = readers \ {"A"} /\ Goto("A", "idle") /\ UNCHANGED <<smu, writer, pending, broken>>
+ANext == A1 \/ A2 \/ A3 \/ A4 \/ A5 \/ A6 \/ A7 \/ A8
+
 Break == ~broken /\ broken' = TRUE /\ UNCHANGED <<pc, wal, smu, readers, writer, pending>>
 
-Next == WNext \/ CNext \/ RNext \/ HNext \/ Break
-Spec == Init /\ [][Next]_vars /\ SF_vars(WNext) /\ SF_vars(CNext) /\ SF_vars(RNext) /\ SF_vars(HNext)
+Next == WNext \/ CNext \/ RNext \/ HNext \/ ANext \/ Break
+Spec == Init /\ [][Next]_vars /\ SF_vars(WNext) /\ SF_vars(CNext) /\ SF_vars(RNext) /\ SF_vars(HNext) /\ SF_vars(ANext)
 
 LocksConsistent == /\ (writer # "" => readers = {})
                    /\ (wal = "W" <=> pc["W"] \notin {"idle"})
